@@ -322,6 +322,21 @@ def g4(rng, f, fname, n):
         sub = flt.np_from_index(rng.integers(1, 1 << 8, size=m), f)
         extra_re.append(sub * rng.choice([-1, 1], size=m).astype(ft))
         extra_im.append(flt.np_from_index(rng.integers(1, 1 << 8, size=m), f) * rng.choice([-1, 1], size=m).astype(ft))
+    # every function: both components in the same extreme region (where x*x + y*y, hypot/2 + |x|/2, x*y ... over- or
+    # underflow and the fallback formulas take over), random mantissas, exponent offset within +-(p+2)
+    fi = np.finfo(ft)
+    emax, emin = int(fi.maxexp) - 1, int(fi.minexp)
+    anchors = np.array([emax, emax - 1, emax - 2, emax - 4, emax // 2 + 1, emax // 2, emax // 2 - 1, emax // 2 - 3, emin // 2 + 1, emin // 2, emin // 2 - 2, emin + 3, emin + 1, emin, emin - 2, emin - (f.p // 2), emin - f.p + 2])
+    ea = anchors[rng.integers(0, len(anchors), size=m)]
+    eb = ea + np.where(rng.random(m) < 0.6, rng.integers(-4, 5, size=m), rng.integers(-f.p - 2, f.p + 3, size=m))
+    with np.errstate(all="ignore"):
+        ma = np.ldexp(rng.uniform(1, 2, size=m), ea).astype(ft)
+        mb = np.ldexp(rng.uniform(1, 2, size=m), np.clip(eb, emin - f.p, emax)).astype(ft)
+    ma = np.where(np.isfinite(ma), ma, fi.max).astype(ft) * rng.choice([-1, 1], size=m).astype(ft)
+    mb = np.where(np.isfinite(mb), mb, fi.max).astype(ft) * rng.choice([-1, 1], size=m).astype(ft)
+    swap = rng.random(m) < 0.5
+    extra_re.append(np.where(swap, mb, ma).astype(ft))
+    extra_im.append(np.where(swap, ma, mb).astype(ft))
     if extra_re:
         re = np.concatenate([re] + extra_re).astype(ft)
         im = np.concatenate([im] + extra_im).astype(ft)
@@ -471,7 +486,9 @@ def run(ctx):
         "sqrt(largest), largest, +-inf and ULP neighbours), G4 threshold pool read out of the expanded graph (input-independent "
         "sub-expressions, their roots/squares/halves/doubles/reciprocals, +-{0,1,2,3,17,100,5000} ULP) crossed with itself and with G1, "
         "plus constructed curves (|z|=1 for the log family, x=-y^2/2, |1+z|=0.2 and z=-1+iy tiny for log1p, x=+-1 (rotated for "
-        "atan/asinh) with tiny/huge other component, exp with y next to k*pi/2 and x around log(largest)), G5 error-maximising local "
+        "atan/asinh) with tiny/huge other component, exp with y next to k*pi/2 and x around log(largest); for every function pairs with both "
+        "components in the same extreme region: top binades, around sqrt(largest), around sqrt(smallest), lowest normal and subnormal "
+        "binades, exponent offset within +-(p+2), random mantissas), G5 error-maximising local "
         "search from the worst inputs (ULP/exponent steps, swap, negate, snap to pool). Oracle: mpmath Ziv, Annex G at infinities, "
         "either side on branch cuts, analytic exp for huge real parts. Verdicts: every component within 16 lattice steps, no spurious "
         "NaN/inf/sign; on G1 and on G2 the fraction beyond the design target (3; 4 for sqrt, log1p) <= 0.1% (Clopper-Pearson lower "
